@@ -172,14 +172,16 @@ fn rfc1071_tcp_sum(b: &[u8; 20], s: &[u8; 4], d: &[u8; 4], tcp_len: u16) -> u16 
     t as u16
 }
 
-//# id=checksum.emitted_segment_verifies fns=TcpHeaderBuilder::build+TcpHeader::serialize+Checksum::* props=C18 kind=complete features=compute_checksum tier=thorough pair=
+//# id=checksum.emitted_segment_verifies fns=TcpHeaderBuilder::build+TcpHeader::serialize+Checksum::* props=C18 kind=bounded bound=sequence_and_acknowledgment_numbers_drawn_from_four_fixed_values_each_all_other_fields_symbolic features=compute_checksum tier=thorough pair=
+// (with seq and ack fully symbolic CBMC gave no verdict in 90 min; the unbounded statement is proved by Verus in unit tcpck)
 #[cfg(feature = "compute_checksum")]
 #[cfg_attr(kani, kani::proof)]
 #[cfg_attr(kani, kani::unwind(22))]
 #[cfg_attr(vx_replay, test)]
 fn h_ck_tcp_emit_verifies() {
     let (sp, dp): (u16, u16) = (any(), any());
-    let (seq, ack): (u32, u32) = (any(), any());
+    const V: [u32; 4] = [0, 0xffff_ffff, 0x8000_8000, 0x1234_fedc];
+    let (seq, ack): (u32, u32) = (V[(any::<u8>() % 4) as usize], V[(any::<u8>() % 4) as usize]);
     let wnd: u16 = any();
     let (s, d): ([u8; 4], [u8; 4]) = (any(), any());
     let (sa, da) = (Ipv4Address::new(s), Ipv4Address::new(d));
